@@ -3,7 +3,7 @@ From Coq Require Import ZArith List Bool.
 From Coq Require String.
 Export String.StringSyntax.
 From GV Require Import Ref.Word Ref.EVM Sym.Term Sym.SymExec Sym.SymExecProofs Sym.Spec Sym.SpecSym
-  Val.Equiv Val.SpecCheck Val.SpecCheckProofs.
+  Val.Equiv Val.SpecCheck Val.SpecCheckProofs Model.DepPrelude Gen.DepConst Model.DepConstProofs.
 Import ListNotations.
 Local Open Scope Z_scope.
 
@@ -19,6 +19,24 @@ Theorem C02_spec_denotes_block : forall S opmap L B, spec_check S opmap L B = tr
     (forall x, mem c x = evalm r (s_mem ss) x) /\ (forall k, sto c k = evals r (s_sto ss) k).
 Proof. exact spec_check_sound. Qed.
 Print Assumptions C02_spec_denotes_block.
+
+(* The dependences that make a schedule admissible come from are_dependent.  Its decision for two accesses with
+   integer-constant offsets is regenerated from the source on every run (Gen/DepConst.v, gen/gen_dep.py); whenever it
+   answers "independent" for a pair with a write, the two byte ranges are disjoint (memory) or the keys differ
+   (storage) -- for all offsets and all lengths, KECCAK256 with a symbolic length included. *)
+Theorem C02_const_dependence_sound_mem : forall k1 k2 a1 a2 s1 s2 l1 l2 L1 L2,
+  In k1 mem_kinds -> In k2 mem_kinds -> writes k1 || writes k2 = true ->
+  0 <= L1 -> 0 <= L2 -> (s1 = false -> L1 = l1) -> (s2 = false -> L2 = l2) ->
+  are_dependent_const k1 k2 a1 a2 s1 s2 l1 l2 = false ->
+  forall x, ~ (a1 <= x < a1 + size_of k1 L1 /\ a2 <= x < a2 + size_of k2 L2).
+Proof. exact dep_const_sound_mem. Qed.
+Print Assumptions C02_const_dependence_sound_mem.
+
+Theorem C02_const_dependence_sound_sto : forall k1 k2 a1 a2 s1 s2 l1 l2,
+  In k1 sto_kinds -> In k2 sto_kinds ->
+  are_dependent_const k1 k2 a1 a2 s1 s2 l1 l2 = false -> a1 <> a2.
+Proof. exact dep_const_sound_sto. Qed.
+Print Assumptions C02_const_dependence_sound_sto.
 
 (* The full statement of the property quantifies over ALL admissible schedules:
      forall L, admissible S opmap L = true -> spec_check S opmap L B = true.
